@@ -337,11 +337,10 @@ def check_property(pid, tier, seed):
             "kind": "failing-input" if new_w else "broken-obligation",
             "witnesses": new_w[:10],
         }
-        if new_w or not witnesses:
-            vlib.dump(replay, os.path.join(ROOT, rpath))
-            violations.append((rpath, bool(new_w)))
-        elif witnesses:
-            notes.append("broken ties explained entirely by listed known findings")
+        # a listed known finding never explains a broken tie: ties are intact on the unchanged tree, so anything
+        # broken here is new — with a new failing input if the search found one, without otherwise
+        vlib.dump(replay, os.path.join(ROOT, rpath))
+        violations.append((rpath, bool(new_w)))
 
     # ---- known findings: replay each on the real code
     kf_lines = []
